@@ -9,6 +9,7 @@ import (
 // C01 - promotion only of a caught-up node backed by a frozen quorum.
 type orC01 struct {
 	baseOracle
+	heldAtFreeze map[*iterRec]map[string]GTIDSet
 	lastProm map[string]uint64 // iteration key -> seq of promotion
 }
 
@@ -75,6 +76,26 @@ func frozenByTrace(it *iterRec, oldMaster string) []string {
 func (o *orC01) onSQL(ev *SQLEvent) {
 	m := o.m
 	s := m.s
+	// what a member held when it was frozen (later steps of the same attempt re-point the
+	// replicas, which drops received-but-unapplied tails)
+	if ev.It != nil && ev.toldOK() && m.isDaemon(ev.Src) && (strings.HasPrefix(ev.Query, "STOP SLAVE IO_THREAD") || strings.HasPrefix(ev.Query, "STOP REPLICA IO_THREAD") || ev.Query == "SET GLOBAL super_read_only = 1") {
+		if sv := s.mysql.servers[ev.Dst]; sv != nil {
+			if o.heldAtFreeze == nil {
+				o.heldAtFreeze = map[*iterRec]map[string]GTIDSet{}
+			}
+			if o.heldAtFreeze[ev.It] == nil {
+				o.heldAtFreeze[ev.It] = map[string]GTIDSet{}
+				if len(o.heldAtFreeze) > 8 {
+					for k := range o.heldAtFreeze {
+						if !k.open && k != ev.It {
+							delete(o.heldAtFreeze, k)
+						}
+					}
+				}
+			}
+			o.heldAtFreeze[ev.It][ev.Dst] = sv.Holds().Clone()
+		}
+	}
 	if !(ev.Applied && ev.Query == "SET GLOBAL read_only = 0" && m.isDaemon(ev.Src) && ev.Dst != m.master) {
 		return
 	}
@@ -117,8 +138,14 @@ func (o *orC01) onSQL(ev *SQLEvent) {
 			deficits = append(deficits, h+":writable")
 			continue
 		}
-		if !sv.Holds().SubsetOf(H.Executed) {
-			miss := sv.Holds().Minus(H.Executed)
+		// what the member held when this attempt froze it (re-pointing and promotion drop
+		// received-but-unapplied tails afterwards)
+		held := sv.Holds()
+		if x, ok := o.heldAtFreeze[it][h]; ok {
+			held = x
+		}
+		if !held.SubsetOf(H.Executed) {
+			miss := held.Minus(H.Executed)
 			if len(miss) > 3 {
 				miss = miss[:3]
 			}
@@ -151,13 +178,19 @@ func (o *orC01) onSQL(ev *SQLEvent) {
 	// split-brain clause, promotion side
 	fr := frozenByTrace(it, m.master)
 	var sets []GTIDSet
+	var desc []string
 	for _, h := range fr {
 		if sv := s.mysql.servers[h]; sv != nil && sv.Up {
-			sets = append(sets, sv.Holds())
+			held := sv.Holds()
+			if x, ok := o.heldAtFreeze[it][h]; ok {
+				held = x
+			}
+			sets = append(sets, held)
+			desc = append(desc, h+"="+held.String())
 		}
 	}
 	if len(sets) >= 2 && !isChain(sets) {
-		m.violate("C01", "splitbrain_promoted", "promotion-despite-incomparable-frozen-sets", fmt.Sprintf("%s promoted %s although frozen members %v hold incomparable transaction sets", ev.Src, H.Name, fr))
+		m.violate("C01", "splitbrain_promoted", "promotion-despite-incomparable-frozen-sets", fmt.Sprintf("%s promoted %s although frozen members %v hold incomparable transaction sets: %v", ev.Src, H.Name, fr, desc))
 	}
 	if o.lastProm == nil {
 		o.lastProm = map[string]uint64{}
@@ -207,6 +240,9 @@ func (o *orC01) onIterLeave(it *iterRec) {
 		sv := s.mysql.servers[h]
 		if sv == nil || !sv.Up {
 			return
+		}
+		if sv.lastWorldChange >= it.startT {
+			return // the world changed this server after the attempt began: what was collected may differ from what is there now
 		}
 		sets = append(sets, sv.Holds())
 	}
